@@ -1,6 +1,6 @@
 #!/bin/bash
 # dev helper: build rel and run props
-cd /verif/harness && cargo build --profile ${PROFILE:-rel} --target-dir /verif/target/${PROFILE:-rel} 2>&1 | grep -E "^error" -A 20
+cd /verif/harness && cargo build -p pbt --profile ${PROFILE:-rel} --target-dir /verif/target/${PROFILE:-rel} 2>&1 | grep -E "^error" -A 20
 for p in "$@"; do /verif/target/${PROFILE:-rel}/${PROFILE:-rel}/pbt $p --tier ${TIER:-quick} --profile ${PROFILE:-rel} --out /tmp/$p.json --crumbs /verif/evidence/.crumbs --replays /tmp/replays; done
 python3 - "$@" <<'PY'
 import json,sys
